@@ -244,6 +244,7 @@ def run_shard(prop, run, exe, tier, seed, cases, start, shard, nshards, outdir, 
     t0 = time.time()
     skip = []
     resumes = 0
+    hang_exits = 0
     os.makedirs(outdir, exist_ok=True)
     cur_start = start
     while True:
@@ -344,7 +345,10 @@ def run_shard(prop, run, exe, tier, seed, cases, start, shard, nshards, outdir, 
                                         "detail": "shard exceeded %ss wall; last case %s" % (timeout, prog),
                                         "case": prog, "seed": seed, "run": run["name"]})
         elif rc == EXIT_HANG:
-            pass  # candidate already collected from violations.jsonl
+            hang_exits += 1  # candidate already collected from violations.jsonl
+            if hang_exits >= 3:
+                # three watchdog expiries in one shard: enough evidence, do not burn the budget on more
+                break
         elif sans:
             res.crashes += 1
             for kind, frame, ex in sans[:3]:
@@ -542,11 +546,11 @@ def check_property(prop, spec, tier, seed, replay=None, keep=False):
 
     # hang candidates: re-run the case alone; a second expiry makes it a violation
     unreproduced = 0
-    for h in total.hang_candidates[:6]:
+    for h in total.hang_candidates[:3]:
         run = h.pop("_run")
         again = False
         if h.get("case") is not None:
-            for attempt in range(3):
+            for attempt in range(2):
                 od = os.path.join(workdir, "hang-%s-%s-%d" % (run["name"], h["case"], attempt))
                 r = run_shard(prop, run, exes[run["name"]], tier, h["seed"], h["case"] + 1, 0, 0, 1, od, 900,
                               only=h["case"])
